@@ -254,7 +254,7 @@ def r9(ctx, prog):
     scripts = []
     for n in range(1, depth + 1):
         for s_ in itertools.product(alpha, repeat=n):
-            if s_[0][0] != 'en' or s_[-1][0] != 'adv' or sum(1 for a in s_ if a[0] == 'adv') < (1 if n < 4 else 2):
+            if s_[0][0] != 'en' or s_[-1][0] != 'adv':
                 continue
             scripts.append(s_)
     scripts += [(('en', 1), ('en', 2), ('adv', 7), ('adv', 2), ('en', 1), ('adv', 7)), (('en', 3), ('en', 0), ('adv', 2), ('adv', 1), ('adv', 2), ('adv', 7)),
